@@ -39,7 +39,10 @@ struct Registry {
         harnessHeld.clear();
         nextId     = 1;
         constructs = destroys = copies = moves = assigns = 0;
+        reset_shadow();
     }
+
+    static void reset_shadow(); // defined after Sealed
 
     static auto where(void const* p) -> std::string
     {
@@ -368,6 +371,95 @@ struct Coarse {
 
     friend auto operator>=(Coarse const& a, Coarse const& b) -> bool { return !(a < b); }
 };
+
+// Element type that is NOT trivially copyable (user-provided copy / move operations) although its default constructor
+// and its destructor are trivial - the shape a careless "is this relocatable?" test gets wrong. Every special member
+// records the value it leaves at its own address in a shadow table; an element whose bytes differ from its shadow was
+// moved by memcpy / memmove behind the back of its special members, which is undefined behaviour for such a type.
+struct Sealed {
+    int v;
+
+    static auto shadow() -> std::map<uintptr_t, int>&
+    {
+        static std::map<uintptr_t, int> m;
+        return m;
+    }
+
+    void note() const
+    {
+        LibPause pause;
+        shadow()[reinterpret_cast<uintptr_t>(this)] = v;
+    }
+
+    Sealed() = default; // trivial: leaves v indeterminate (value-initialisation zeroes it)
+
+    Sealed(int x) // NOLINT
+        : v(x)
+    {
+        note();
+    }
+
+    Sealed(Sealed const& o)
+        : v(o.v)
+    {
+        note();
+    }
+
+    Sealed(Sealed&& o) noexcept
+        : v(o.v)
+    {
+        note();
+    }
+
+    auto operator=(Sealed const& o) -> Sealed&
+    {
+        v = o.v;
+        note();
+        return *this;
+    }
+
+    auto operator=(Sealed&& o) noexcept -> Sealed&
+    {
+        v = o.v;
+        note();
+        return *this;
+    }
+
+    ~Sealed() = default;
+
+    // true if the bytes at this address are what the element's own special members left there (0 is what
+    // value-initialisation through the trivial default constructor leaves, which no hook can see)
+    [[nodiscard]] auto untouched() const -> bool
+    {
+        if (v == 0) {
+            return true;
+        }
+        auto it = shadow().find(reinterpret_cast<uintptr_t>(this));
+        return it != shadow().end() && it->second == v;
+    }
+
+    explicit operator long long() const { return v; }
+
+    friend auto operator==(Sealed const& a, Sealed const& b) -> bool { return a.v == b.v; }
+
+    friend auto operator!=(Sealed const& a, Sealed const& b) -> bool { return a.v != b.v; }
+
+    friend auto operator<(Sealed const& a, Sealed const& b) -> bool { return a.v < b.v; }
+
+    friend auto operator>(Sealed const& a, Sealed const& b) -> bool { return a.v > b.v; }
+
+    friend auto operator<=(Sealed const& a, Sealed const& b) -> bool { return a.v <= b.v; }
+
+    friend auto operator>=(Sealed const& a, Sealed const& b) -> bool { return a.v >= b.v; }
+};
+
+inline void Registry::reset_shadow()
+{
+    LibPause pause;
+    Sealed::shadow().clear();
+}
+
+static_assert(std::is_trivially_default_constructible_v<Sealed> && std::is_trivially_destructible_v<Sealed> && !std::is_trivially_copyable_v<Sealed>);
 
 template <typename T>
 inline constexpr bool is_tracked_v = false;
